@@ -1,4 +1,5 @@
 """Port-level simulation of a real elaborated design under Amaranth's simulator."""
+import os
 import warnings
 warnings.simplefilter("ignore")
 from . import common  # noqa: F401  (puts /repo first on sys.path)
@@ -35,6 +36,14 @@ def simulate(dut, ins, outs, stim, *, probe=None, frag=None, reset_at=()):
         dut = ResetInserter(rst)(dut)
         reset_at = set(reset_at)
     if frag is None or rst is not None:
+        # "every elaboration yields the same hardware": for about a quarter of the runs (chosen by the shape of
+        # the run, so that it is reproducible) the design is elaborated once more beforehand and that first
+        # result is thrown away; what is simulated is the SECOND elaboration of the same instance
+        if (len(stim) * 7 + len(ins) * 3 + len(outs)) % 4 == 0 and not os.environ.get("VERIF_ELABORATE_ONCE"):
+            try:
+                Fragment.get(dut, None)
+            except Exception:
+                pass          # a design that cannot be elaborated is reported by the run below
         frag = Fragment.get(dut, None)
     sim = Simulator(frag)
     sim.add_clock(1e-6, if_exists=True)
